@@ -230,6 +230,77 @@ def _ob_parent(ni: int, how: int) -> bool:
     return par is not None and par.id == ids[path[:-1]]
 
 
+def _ob_parent_after_move(mv: int, how: int) -> bool:
+    """
+    pre: 0 <= mv < 5 and 0 <= how < 3
+    post: __return__
+    """
+    import nixio
+    nixfake.begin()
+    f = nixio.File(PATH, "w")
+    with untraced():
+        riga = f.create_section("rigA", "t")
+        el = riga.create_section("el", "t")
+        riga.create_section("amp", "t")
+        el.create_section("tip", "t")
+        rigb = f.create_section("rigB", "t")
+        rigb.create_section("x", "t")
+        blk = f.create_block("blk", "t")
+
+    def handles():
+        """name path -> looked-up handle (never the handle a create call returned)"""
+        out = {}
+
+        def rec(cont, path):
+            for sct in cont:
+                out[path + (sct.name,)] = sct
+                rec(sct.sections, path + (sct.name,))
+        if how == 1:
+            # handles as a search hands them out, matched to their place by a walk
+            found = {x.id: x for x in f.find_sections()}
+            rec(f.sections, ())
+            return {k: found[v.id] for k, v in out.items()}
+        rec(f.sections, ())
+        if how == 2:
+            # handles as a metadata link hands them out
+            res = {}
+            for k, v in out.items():
+                blk.metadata = v
+                res[k] = f.blocks["blk"].metadata
+            return res
+        return out
+
+    def parents_ok():
+        hs = handles()
+        for path, h in hs.items():
+            par = h.parent
+            if len(path) == 1:
+                if par is not None:
+                    return False
+            elif par is None or par.id != hs[path[:-1]].id or par.name != path[-2]:
+                return False
+        return True
+    if not parents_ok():                      # every parent has been asked for once
+        return False
+    old = f.sections["rigA"].sections["el"].id
+    if mv == 0:                               # the same id moves under another parent
+        del f.sections["rigA"].sections["el"]
+        f.sections["rigB"].create_section("el", "t", oid=old)
+    elif mv == 1:                             # the same name appears under another parent
+        del f.sections["rigA"].sections["el"]
+        f.sections["rigB"].create_section("el", "t")
+    elif mv == 2:                             # a whole subtree is replaced, an old id reappears deeper
+        del f.sections["rigA"]
+        f.create_section("rigA", "t").create_section("amp", "t").create_section("el", "t", oid=old)
+    elif mv == 3:                             # the id moves to the top level
+        del f.sections["rigA"].sections["el"]
+        f.create_section("el", "t", oid=old)
+    else:                                     # a nested section gains a level
+        del f.sections["rigA"].sections["el"]
+        f.sections["rigA"].sections["amp"].create_section("el", "t", oid=old).create_section("tip", "t")
+    return parents_ok()
+
+
 def _children_in_order(paths, parent):
     return [p for p in paths if len(p) == len(parent) + 1 and p[:-1] == parent]
 
@@ -376,6 +447,12 @@ OBLIGATIONS = [
                   "nixio.source.Source.parent_source", "nixio.source.Source.parent_block",
                   "nixio.source.Source._find_parent_recursive", "nixio.container.Container.__contains__"],
        replay=lambda a: _real("_ob_parent", a)),
+    Ob("parents_after_restructuring", _ob_parent_after_move, timeout=600,
+       functions=["nixio.section.Section.parent", "nixio.container.SectionContainer.__delitem__",
+                  "nixio.section.Section.create_section", "nixio.file.File.create_section"],
+       replay=lambda a: _real("_ob_parent_after_move", a),
+       outside="one section tree, five restructurings (delete, then the same id / the same name re-created under "
+               "another parent, deeper, or at the top level), handles looked up after the change; sources"),
     Ob("referring_section", _ob_referring_section, timeout=900,
        partition=[(rk, m) for rk in ("blocks", "groups", "data_arrays", "tags", "multi_tags", "sources")
                   for m in range(4)],
